@@ -3,7 +3,7 @@
    observed on the real code, checked against the model by vm_compute. *)
 From Coq Require Import String List NArith ZArith Bool.
 From J5V.lib Require Import Outcome Corr.
-From J5V.model Require Import ReflectDesc ReflectSchema Reflect ReflectSpec ReflectCorr Export ExportApi.
+From J5V.model Require Import ReflectDesc ReflectSchema Reflect ReflectSpec ReflectCorr Export ExportApi ReflectNames.
 Import ListNotations.
 Local Open Scope bool_scope.
 
@@ -93,7 +93,7 @@ Definition check_export (D : desc) (svcs : list svcd) (wanted : list str) (cls_e
   | RErr _ => N.eqb cls_export 1
   | ROk api0 =>
   (* vm_compute is call-by-value: branch explicitly so that the orders are only tried when needed *)
-  if match omap fst (ReflectOwn.o_reflect D fs) with
+  if match omap fst (ReflectNames.o_reflect_checked D fs) with
      | Ok st =>
          (* what the round-trip theorem assumes of a reflected set, checked on every case *)
          keys_distinct st && set_importable st && set_closed st &&
